@@ -896,6 +896,37 @@ def run_one(m, meta):
     return o, property_oracle(m, meta, o), coq_expr(m, meta, o)
 
 
+def guarded(fn):
+    """a cell whose construction / driving crashes (the code no longer accepts a configuration it accepted) becomes ONE disagreeing case
+    with the exception in its meta, instead of taking the whole generator down: the other cells still report concrete inputs"""
+    def wrapper(meta, cell, *a, **k):
+        try:
+            return fn(meta, cell, *a, **k)
+        except Exception as e:
+            import traceback
+            m = dict(meta) if isinstance(meta, dict) else {"model": meta}
+            m["crashed"] = (type(e).__name__ + ": " + str(e))[:400] + " | " + traceback.format_exc()[-600:]
+            return [Case(expr="false", meta=m, cell=cell, kind="DECISION")]
+    wrapper.__name__ = fn.__name__
+    return wrapper
+
+
+def tp_dims(spec):
+    """(domain, range) parameter dimensions of a shipped test problem, from its description alone"""
+    n = spec["dim"]
+    if spec["tp"] == "deconv2d":
+        return n * n, n * n
+    if spec["tp"] == "abel":
+        fp = spec.get("field_params") or {}
+        if spec.get("field_type") == "Step":
+            return fp.get("n_steps", 3), n
+        if spec.get("field_type") == "KL":
+            nm = fp.get("num_modes")
+            return (n if nm is None or nm > n else nm), n
+    return n, n
+
+
+@guarded
 def reassign_case(meta, cell):
     """get_matrix(), then model.domain_geometry = another geometry, then get_matrix() again and forward on the unit vectors"""
     m = build_model(meta)
@@ -922,6 +953,7 @@ def reassign_case(meta, cell):
     return cases
 
 
+@guarded
 def make_cases(meta, cell, trivial=False):
     """all Case objects of one (model, operation, x, y)"""
     m = build_model(meta)
@@ -959,6 +991,7 @@ def conv1d_ref(x, w, mode):
     return [sum(frac(w[k]) * ext(i - k + L // 2) for k in range(L)) for i in range(n)]
 
 
+@guarded
 def deconv1d_matrix_case(spec, cell):
     import scipy.sparse as sp
     tp = build_testproblem(spec)
@@ -1135,8 +1168,7 @@ def run(ctx):
     for ms in rep_models:
         ms = dict(ms)
         if "tp" in ms:
-            mm = build_model({"model": ms})
-            nD, nR = mm.D.par_dim, mm.R.par_dim
+            nD, nR = tp_dims(ms)
             label = ms["tp"]
         else:
             D, R = mk_geom(ms["D"]), mk_geom(ms["R"])
@@ -1194,8 +1226,8 @@ def run(ctx):
             cases.extend(make_cases(meta, "gradient/%s/%s%s->%s" % ("matrix" if backing != "function" else backing, D.family, "+gradient" if D.userg else "", R.family)))
     for tp_spec in ({"tp": "deconv2d", "dim": 4, "PSF": [[1, 0, 2], [0, 3, 1], [1, 1, 0]], "BC": "zero"}, {"tp": "deconv1d", "dim": 5, "PSF": [1, 2, 3], "BC": "nearest"},
                     {"tp": "abel", "dim": 4}, {"tp": "abel", "dim": 6, "field_type": "Step", "field_params": {"n_steps": 3}}):
-        mm = build_model({"model": tp_spec})
-        meta = {"op": "grad", "model": tp_spec, "x": rvec(rng, mm.D.par_dim), "y": rvec(rng, mm.R.par_dim), "x2": rvec(rng, mm.D.par_dim)}
+        nD, nR = tp_dims(tp_spec)
+        meta = {"op": "grad", "model": tp_spec, "x": rvec(rng, nD), "y": rvec(rng, nR), "x2": rvec(rng, nD)}
         cases.extend(make_cases(meta, "gradient/testproblem/" + tp_spec["tp"]))
 
     # ---- 2g. the dst/idst law assumed by C07_kl_left_inverse, on the very matrices the KL cells run with ----------------------
@@ -1300,10 +1332,10 @@ def run(ctx):
                   {"tp": "abel", "dim": 4, "field_type": "KL"},
                   {"tp": "abel", "dim": 4, "KL_map": 2}]
     for sp_ in abel_specs:
-        m = build_model({"model": sp_})
+        nDa, nRa = tp_dims(sp_)
         for op in OPS:
             for _ in range(reps if op == "fa" else 1):
-                add(sp_, op, rvec(rng, m.D.par_dim), rvec(rng, m.R.par_dim),
+                add(sp_, op, rvec(rng, nDa), rvec(rng, nRa),
                     "Abel1D/%s%s/%s" % (sp_.get("field_type") or "default", "+map" if sp_.get("KL_map") else "", op))
 
     return Result(cases=cases, rule=RULE,
